@@ -467,4 +467,39 @@ theorem handleIncomingSSRCHead_ok (s : Session) (isAnswer withoutAnswer midOK ri
                 · rfl
                 · rfl
 
+/-! ### probing loop -/
+theorem probeTransceivers_ok (mid rid rsid : Str) (trs : List ProbeTr) (i : Nat) :
+    (probeTransceivers mid rid rsid trs i).ok = true := by
+  induction trs generalizing i with
+  | nil => rfl
+  | cons t ts ih =>
+    unfold probeTransceivers
+    split
+    · exact ih _
+    · rename_i h
+      cases hr : t.receiver with
+      | none => simp [hr] at h
+      | some r => simp only [deref, Res.bind_val]; split <;> rfl
+
+theorem probeLoop_ok (trs : List ProbeTr) (fuel n : Nat) (st : PktIds) (q : List PktIds) :
+    (probeLoop trs fuel n st q).ok = true := by
+  induction fuel generalizing n st q with
+  | zero => rfl
+  | succ f ih =>
+    unfold probeLoop
+    split
+    · rfl
+    · split
+      · split
+        · rfl
+        · exact ih _ _ _
+      · apply Res.ok_bind _ _ (probeTransceivers_ok _ _ _ _ _)
+        intro r _
+        split
+        · rfl
+        · exact ih _ _ _
+
+theorem probe_ok (trs : List ProbeTr) (first : PktIds) (rest : List PktIds) : (probe trs first rest).ok = true :=
+  probeLoop_ok _ _ _ _ _
+
 end WebrtcVerif.RemoteInput
